@@ -54,30 +54,32 @@ theorem propagate_fft_energy_aux (fs : List (Fld ℂ)) (W0 W1 : ℕ) (dx0 dx1 du
   have hosR : ((os : ℤ) : ℝ) ≠ 0 := Int.cast_ne_zero.mpr (by omega)
   -- unpack the accepted call: square grid, reported wavelength, output shape inside the grid
   have hfacts : S0 = S1 ∧ dftAlpha dx0 dx1 du0 du1 lam z os = (1 / (S0 : ℝ), 1 / (S0 : ℝ)) ∧ so.1 ≤ S0 ∧ so.2 ≤ S0 := by
-    by_cases hb : shapeTooBig shape (fftShape dx0 dx1 du0 du1 z wl os) os = true
+    by_cases hb : shapeTooBig (R := ℝ) shape (fftShape dx0 dx1 du0 du1 z wl os) os = true
     · simp only [propagateFft, Bool.false_eq_true, if_false, hb, if_true] at h; cases h
     by_cases ht : scratchTooSmall scratch (fftShape dx0 dx1 du0 du1 z wl os) = true
     · simp only [propagateFft, Bool.false_eq_true, if_false, hb, ht, if_true] at h; cases h
     simp only [propagateFft, Bool.false_eq_true, if_false, hb, ht, FftOut.ok.injEq] at h
     obtain ⟨hl, h0, h1, hso', _⟩ := h
     have hsq : S0 = S1 := by
-      rw [← h0, ← h1]; simp only [fftShape, Gen.fftAlphaCall, Gen.dftAlpha, hiso]
+      rw [← h0, ← h1]; simp only [fftShape, Gen.fftShapeAlpha, Gen.fftAlphaCall, Gen.dftAlpha, hiso]
     subst hsq
     have hSR : ((S0 : ℤ) : ℝ) ≠ 0 := Int.cast_ne_zero.mpr (by omega)
     rw [h0, h1] at hl
-    have hα := C09.reported_wavelength_isotropic (R := ℝ) (fun _ => rfl) (fun a => min_self a) dx0 dx1 du0 du1 z os S0 hiso hp hz hosR hSR
+    have hα := C09.reported_wavelength_isotropic (R := ℝ) (fun _ => rfl) (fun a => min_self a) dx0 dx1 du0 du1 z wl os S0 hiso hp hz hosR hSR
     rw [hl] at hα
     refine ⟨rfl, hα, ?_, ?_⟩
     · rw [← hso', ← h0]; cases shape with
-      | none => simp [fftShapeOut]
+      | none => simp [fftShapeOut, Gen.fftShapeOutNone]
       | some sh =>
-        simp only [shapeTooBig, Bool.or_eq_true, decide_eq_true_eq, not_or, not_lt, gt_iff_lt] at hb
-        simp only [fftShapeOut]; exact hb.1
+        rw [shapeTooBig_iff (fun _ => rfl) gt_real sh _ os hos] at hb
+        simp only [not_or, not_lt, gt_iff_lt] at hb
+        rw [fftShapeOut_some]; exact hb.1
     · rw [← hso', ← h1]; cases shape with
-      | none => simp [fftShapeOut]
+      | none => simp [fftShapeOut, Gen.fftShapeOutNone]
       | some sh =>
-        simp only [shapeTooBig, Bool.or_eq_true, decide_eq_true_eq, not_or, not_lt, gt_iff_lt] at hb
-        simp only [fftShapeOut]; exact hb.2
+        rw [shapeTooBig_iff (fun _ => rfl) gt_real sh _ os hos] at hb
+        simp only [not_or, not_lt, gt_iff_lt] at hb
+        rw [fftShapeOut_some]; exact hb.2
   obtain ⟨hsq, hα, hle0, hle1⟩ := hfacts
   subst hsq
   obtain ⟨K, hK⟩ : ∃ K : ℕ, S0 = K := ⟨S0.toNat, by omega⟩
